@@ -91,6 +91,29 @@ pub fn k_c13_add_sub_mul() {
     vreach!("C13.arith.reach");
 }
 
+//# harness: fn=polynom::mul (unequal lengths), add / sub / eval with an empty operand; label=bounded(F_17; operand lengths 3x2, 1x3, 0+3); tier=quick; props=C13; timeout=600; uses=any_tiny
+#[cfg_attr(kani, kani::proof)]
+#[cfg_attr(kani, kani::unwind(6))]
+pub fn k_c13_arith_unequal_and_empty() {
+    let a = [any_tiny(), any_tiny(), any_tiny()];
+    let b = [any_tiny(), any_tiny()];
+    let m = polynom::mul(&a, &b);
+    vcheck!("C13.mul.convolution_3x2", m.len() == 4 && m[0] == a[0] * b[0] && m[1] == a[0] * b[1] + a[1] * b[0]
+        && m[2] == a[1] * b[1] + a[2] * b[0] && m[3] == a[2] * b[1]);
+    let m2 = polynom::mul(&b, &a);
+    vcheck!("C13.mul.commutes_on_lengths", m2 == m);
+    let c = [any_tiny()];
+    let m3 = polynom::mul(&c, &a);
+    vcheck!("C13.mul.by_constant_polynomial", m3.len() == 3 && m3[0] == c[0] * a[0] && m3[1] == c[0] * a[1] && m3[2] == c[0] * a[2]);
+    let e: [Tiny; 0] = [];
+    let s = polynom::add(&e, &a);
+    vcheck!("C13.add.empty_operand", s.len() == 3 && s[0] == a[0] && s[1] == a[1] && s[2] == a[2]);
+    let d = polynom::sub(&e, &a);
+    vcheck!("C13.sub.empty_minuend", d.len() == 3 && d[0] == -a[0] && d[1] == -a[1] && d[2] == -a[2]);
+    vcheck!("C13.eval.empty_polynomial_is_zero", polynom::eval(&e, any_tiny()) == Tiny::ZERO);
+    vreach!("C13.arith2.reach");
+}
+
 //# harness: fn=polynom::degree_of, remove_leading_zeros; label=bounded(F_17; length <= 4, all values); tier=quick; props=C13; uses=any_tiny
 #[cfg_attr(kani, kani::proof)]
 #[cfg_attr(kani, kani::unwind(6))]
@@ -140,6 +163,25 @@ pub fn k_c13_div() {
     vcheck!("C13.div.quotient_len", q.len() == 2);
     vcheck!("C13.div.euclid_top", q[1] * b[1] == a[2] && q[0] * b[1] + q[1] * b[0] == a[1]);
     vreach!("C13.div.reach");
+}
+
+// the same division with operands whose slices are longer than degree + 1 (trailing zero coefficients are
+// allowed by the documentation: the degree is that of the highest non-zero coefficient)
+//# harness: fn=polynom::div (operands padded with trailing zero coefficients; constant divisor); label=bounded(F_17; 4 by 3 coefficients of degrees 2 by 1, and 3 by 2 coefficients of degrees 2 by 0); tier=quick; props=C13; timeout=600; uses=any_tiny,any_nonzero
+#[cfg_attr(kani, kani::proof)]
+#[cfg_attr(kani, kani::unwind(6))]
+pub fn k_c13_div_padded() {
+    let a = [any_tiny(), any_tiny(), Tiny::ONE, Tiny::ZERO];
+    let b = [any_tiny(), any_nonzero(), Tiny::ZERO];
+    let q = polynom::div(&a, &b);
+    vcheck!("C13.div.padded.quotient_len", q.len() == 2);
+    vcheck!("C13.div.padded.euclid_top", q[1] * b[1] == a[2] && q[0] * b[1] + q[1] * b[0] == a[1]);
+    // division by a non-zero constant stored with a trailing zero: every coefficient is divided by it
+    let c = [any_nonzero(), Tiny::ZERO];
+    let a3 = [any_tiny(), any_tiny(), Tiny::ONE];
+    let q3 = polynom::div(&a3, &c);
+    vcheck!("C13.div.padded.constant_divisor", q3.len() == 3 && q3[0] * c[0] == a3[0] && q3[1] * c[0] == a3[1] && q3[2] * c[0] == a3[2]);
+    vreach!("C13.div.padded.reach");
 }
 
 //# harness: fn=polynom::poly_from_roots, interpolate, syn_div_roots_in_place; label=bounded(F_17; 2 roots / 2 points); tier=quick; props=C13; timeout=600; uses=any_tiny,ref_eval
